@@ -349,6 +349,11 @@ def model_task(task, ybin, root, prop):
             pkg.files[fn0].append(M.Record("SteerPodInner", (), [("narrow", narrow()), ("wide", wide())]))
             pkg.files[fn0].append(M.Record("SteerPodPacked", (), [("first", M.Prim("float32")), ("second", M.Prim("float32"))]))
             pkg.files[fn0].append(M.Record("SteerPodNested", (), [("head", M.Named("SteerPodTail")), ("tail", M.Prim(pr_.choice(["uint8", "float32"])))]))
+            # dense integer streams right behind the padding: with the alignment sweep, varints of every length and of every
+            # "single high bit" shape get written and read across the staging-buffer boundary
+            at = 1 if protos0[0].steps and protos0[0].steps[0][0] == sw.PAD_STEP else 0
+            protos0[0].steps.insert(at, ("steeri64", M.Prim("int64"), True))
+            protos0[0].steps.insert(at, ("steeru64", M.Prim("uint64"), True))
             protos0[0].steps.append(("steerpodt", M.Named("SteerPodTail"), True))
             protos0[0].steps.append(("steerpodi", M.Vec(M.Named("SteerPodInner")), False))
             protos0[0].steps.append(("steerpodp", M.Vec(M.Named("SteerPodPacked"), 2), False))
@@ -371,7 +376,7 @@ def model_task(task, ybin, root, prop):
             for rep in range(reps):
                 r = pr.fork(rep)
                 finite = json_involved
-                big = r.chance(0.25)
+                big = r.chance(0.5 if prop in ("C01", "C03") else 0.25)     # binary properties: every second workload is aligned to a buffer boundary
                 pad_len = None
                 if big and proto.steps[0][0] == sw.PAD_STEP:
                     hl = 9 + 3 + len(model.schema(proto).encode())
@@ -380,6 +385,10 @@ def model_task(task, ybin, root, prop):
                         pad_len = 1100000
                 items = (0, 0) if r.chance(0.1) else (0, 6)
                 vals = sw.gen_values(cx.env, cx.ns, proto, r, finite=finite, big=r.chance(0.3), items=items, pad_len=pad_len)
+                for k_, (sn_, st_, ss_) in enumerate(proto.steps):
+                    if sn_ in ("steeru64", "steeri64") and pad_len is not None:
+                        vg_ = V.ValueGen(cx.env, r.fork("ints", sn_), finite_only=finite, json_safe=finite)
+                        vals[k_] = [vg_.gen_int(st_.name) for _ in range(r.randint(20, 60))]
                 long_stream = False
                 has_arr = any(n in ("steerarr", "steerfix") for n, _, _ in proto.steps)
                 if prop in ("C01", "C03") and r.chance(0.4 if has_arr else 0.15):
